@@ -906,6 +906,9 @@ def real_oracle(spec, jobs, keep, fail, rc, log, d):
             else:
                 state[cwd] = "fail"
                 failed_any = True
+    # a script that was started but never logged its end died on its own (bash error, killed): that is a failed script too
+    if running:
+        failed_any = True
     if rc == 0 and (failed_any or fail):
         if failed_any:
             out.append(("failure-not-reported", "a script failed but bob dev exited with 0"))
